@@ -314,3 +314,40 @@ func procStateFreshFor(c *Ctx, rule, root, label string, minFields int) {
 			"field "+parts[1]+" is read in "+parts[0]+" on a path from "+root+" on which nothing assigned it for the current packet: the value left by the previous packet is used")
 	}
 }
+
+// calleesNotAnalysed lists module functions that the functions a property's rules
+// analysed call directly and that no rule of the property looked into. It is
+// evidence about the limits of a green run (and a to-do list), not an obligation.
+func (c *Ctx) calleesNotAnalysed() []string {
+	seen := map[string]bool{}
+	var out []string
+	for fn := range c.Prog.AllFuncs() {
+		if fn.Blocks == nil || !c.Funcs[FuncName(fn)] {
+			continue
+		}
+		for _, b := range fn.Blocks {
+			for _, in := range b.Instrs {
+				call, ok := in.(ssa.CallInstruction)
+				if !ok {
+					continue
+				}
+				h := call.Common().StaticCallee()
+				if h == nil || h.Blocks == nil || !inModule(h) {
+					continue
+				}
+				name := FuncName(h)
+				if c.Funcs[name] || seen[name] || isObserverCallee(name) || strings.HasPrefix(name, "pkg/private/serrors.") ||
+					strings.HasPrefix(name, "(pkg/private/serrors") {
+					continue
+				}
+				seen[name] = true
+				out = append(out, name)
+			}
+		}
+	}
+	sort.Strings(out)
+	if len(out) > 60 {
+		out = append(out[:60], fmt.Sprintf("... and %d more", len(out)-60))
+	}
+	return out
+}
